@@ -21,6 +21,10 @@ from .core import Unsupported, EngineError
 _INTERP = None
 
 
+def S_or(xs):
+    return core.s_or(*xs)
+
+
 def get_interp():
     global _INTERP
     if _INTERP is None:
@@ -67,6 +71,19 @@ class Ctx(object):
         except z3.Z3Exception as e:
             v = vc.Verdict('undecided', backend='z3', note='z3 error: %s' % e)
         return self.record(st, name, v, info, replay)
+
+    def prove_cases(self, st, name, goal, cases, info=None, replay=None):
+        """goal proved separately under each of the (jointly exhaustive) case conditions; exhaustiveness is an
+        obligation of its own.  Keeps the nonlinear / If-heavy queries small."""
+        from .core import sbool
+        ok = self.prove(st, name + ' [cases exhaustive]', S_or([sbool(c) for c in cases]), info, replay)
+        for i, c in enumerate(cases):
+            st.pc.append(sbool(c).t)
+            try:
+                ok = self.prove(st, '%s [case %d]' % (name, i), goal, info, replay) and ok
+            finally:
+                st.pc.pop()
+        return ok
 
     def record(self, st, name, v, info=None, replay=None):
         pcs = [str(p) for p in (st.pc if st is not None else [])]
